@@ -241,6 +241,12 @@ func (me *multiEndpoint) switchFromTo(f, t *endpoint) {
 		me.Lock()
 		defer me.Unlock()
 		if e, ok := me.endpoints[me.future]; ok && e.status == available {
+			// The endpoints list or statuses may have changed since this switch
+			// was scheduled: never leave a usable current endpoint for a lower
+			// priority one.
+			if c, ok := me.endpoints[me.current]; ok && c.status != unavailable && c.priority < e.priority {
+				return
+			}
 			me.current = e.id
 		}
 	})
